@@ -348,11 +348,15 @@ impl Engine {
                     }
                     s_native = true;
                 }
-                CfgSection::Protocol { min_stake, oracle, channel } => {
+                CfgSection::Protocol { min_stake, oracle, channel, spell } => {
                     c.min_stake = *min_stake;
                     c.oracle = if *oracle && !self.force_no_oracle { Some(self.w.setup.oracle_addr.clone()) } else { None };
                     if quiet {
-                        c.channel = format!("channel-{}", channel);
+                        c.channel = match spell % 4 {
+                            2 => format!("channel-00{}", channel),
+                            3 => format!("channel-+{}", channel),
+                            _ => format!("channel-{}", channel),
+                        };
                     }
                     s_proto = true;
                 }
@@ -417,13 +421,13 @@ impl Engine {
         let post = self.w.st.staking.map.clone();
         let ck = changed_keys(pre, &post);
         if ck.iter().any(|k| k != b"config") {
-            self.v("C14", clause, format!("configuration operation changed other records: {:?}", ck.iter().map(|k| String::from_utf8_lossy(k).to_string()).collect::<Vec<_>>()));
+            self.vo("C14", clause, format!("configuration operation changed other records: {:?}", ck.iter().map(|k| String::from_utf8_lossy(k).to_string()).collect::<Vec<_>>()));
         }
         let a = json_of(pre, b"config");
         let b = json_of(&post, b"config");
         for f in diff_fields(&a, &b) {
             if !touched.contains(&f.as_str()) {
-                self.v("C14", clause, format!("config field {} changed although its section was not supplied", f));
+                self.vo("C14", clause, format!("config field {} changed although its section was not supplied", f));
             }
         }
         let c = self.m.cfg.clone();
@@ -436,7 +440,7 @@ impl Engine {
         });
         for f in touched {
             if b[*f] != want[*f] {
-                self.v("C14", clause, format!("config section {} is {} but {} was supplied", f, b[*f], want[*f]));
+                self.vo("C14", clause, format!("config section {} is {} but {} was supplied", f, b[*f], want[*f]));
             }
         }
     }
